@@ -5,6 +5,8 @@ import os
 import numpy as np
 
 from .. import engine, refmodel as rm
+from .. import histories
+from ..histories import t_callhist        # worker task of the history harness (mc/histories.py)
 
 PID = 'C12'
 MOD = 'mc.props.c12'
@@ -195,6 +197,7 @@ def run(tier, seed, acc, procs=None):
                 tasks.append(('t_mask', {'tier': tier, 'seed': seed, 'n': n, 'mask': m, 'shard': sh, 'nshard': 4}))
     acc.states += 1
     acc.transitions += len(tasks)
+    tasks += histories.tasks_for(PID, seed)        # pairwise call histories over the operations this property is anchored in
     engine.run_parallel(MOD, tasks, acc, procs)
     jm = 6 if tier == 'quick' else 8
     return {
@@ -209,5 +212,8 @@ def run(tier, seed, acc, procs=None):
 
 
 def replay(case, acc):
+    if case.get('kind') == 'histop':
+        import os as _os
+        return histories.chk_case(case, acc, int(_os.environ.get('VERIF_SEED', '0') or 0))
     seed = int(os.environ.get('VERIF_SEED', '0') or 0)
     (chk_after_error if case['kind'] == 'aftererr' else chk)(case, acc, seed)
